@@ -35,6 +35,9 @@ besides the field blocks and the sync calls, and none whose generator emits rais
 
 Round 6: text glued to a block template before formatting; the generated sync calls are indexed
 as get_sync_*_methods() returns them (C17-c).
+Round 7: the generic reader of Data(n) is as strict as the generated StructUnpack (d''); members
+filtered out of a run must have no-op pack / unpack; runs regrouped through a mapping or built member
+by member under a test other than "same endianness"; the annotate option may be decided at use time.
 """
 import ast
 
